@@ -90,4 +90,24 @@ theorem gasOnGrid_nonneg (g : Gas ℝ) (req : List ℝ) (l w : ℕ) (hi : ℝ)
     exact (gasOnGrid_mem_between g req l 0 hi hlen hs hv hne _ (List.getElem_mem _)).1
   · rw [getD_default _ _ (not_lt.1 h)]
 
+/-! ### Rayleigh / CIA: species-weighted sums -/
+
+theorem scaledSigma_nil (l w : ℕ) : scaledSigma ([] : List ((ℕ → ℝ) × (ℕ → ℝ))) l w = 0 := by
+  simp [scaledSigma, sumComps]
+
+theorem scaledSigma_cons (g : (ℕ → ℝ) × (ℕ → ℝ)) (gs : List ((ℕ → ℝ) × (ℕ → ℝ))) (l w : ℕ) :
+    scaledSigma (g :: gs) l w = g.1 w * g.2 l + scaledSigma gs l w := by
+  unfold scaledSigma
+  rw [List.map_cons, sumComps_cons]
+  simp [compScaled]
+
+theorem ciaSigma_nil (l w : ℕ) : ciaSigma ([] : List ((ℕ → ℕ → ℝ) × (ℕ → ℝ) × (ℕ → ℝ))) l w = 0 := by
+  simp [ciaSigma, sumComps]
+
+theorem ciaSigma_cons (p : (ℕ → ℕ → ℝ) × (ℕ → ℝ) × (ℕ → ℝ)) (ps : List ((ℕ → ℕ → ℝ) × (ℕ → ℝ) × (ℕ → ℝ))) (l w : ℕ) :
+    ciaSigma (p :: ps) l w = p.1 l w * (p.2.1 l * p.2.2 l) + ciaSigma ps l w := by
+  unfold ciaSigma
+  rw [List.map_cons, sumComps_cons]
+  simp [compCIA]
+
 end Taurex.C01Abs
